@@ -21,6 +21,13 @@ Proof.
   destruct (N.ltb_spec (last_ts s) (clock s)); repeat split; try reflexivity; lia.
 Qed.
 
+Lemma next_cfg_me c e : c_me (next_cfg c e) = c_me c.
+Proof. destruct e; cbn; try reflexivity. destruct (lookup rid (c_storage c)); reflexivity. Qed.
+
+Definition no_setdoc (e : event) : Prop := match e with ESetDoc _ _ => False | _ => True end.
+Lemma next_cfg_static c e : no_setdoc e -> next_cfg c e = c.
+Proof. destruct e; cbn; intros H; try reflexivity. destruct H. Qed.
+
 (* ------------------------------------------------------------------ *)
 (* announced *)
 
@@ -104,7 +111,7 @@ Qed.
 
 Theorem step_no_panic c s e : Inv13 s -> exists s' o, step c s e = Ok s' o /\ Inv13 s'.
 Proof.
-  intros H. destruct e as [p|p|p a|p sub since until|dt|rid|rid|tnow]; cbn [step].
+  intros H. destruct e as [p|p|p a|p sub since until|dt|rid|rid|tnow| |srid sd]; cbn [step].
   - eexists; eexists; split; [reflexivity|]. unfold Inv13; unf_set; exact H.
   - eexists; eexists; split; [reflexivity|]. unfold Inv13; unf_set; exact H.
   - destruct (lookup p (sessions s)); [|eexists; eexists; split; [reflexivity|exact H]].
@@ -137,13 +144,16 @@ Proof.
       eexists; eexists; split; [reflexivity|]. unfold Inv13. rewrite Ei. exact H3.
     + eexists; eexists; split; [reflexivity|]. unfold Inv13. rewrite Hi. exact H.
   - eexists; eexists; split; [reflexivity|]. unfold Inv13; unf_set; exact H.
+  - destruct (draw _) as [s1 ts] eqn:Ed. apply draw_spec in Ed. destruct Ed as (_ & Hnz & _).
+    eexists; eexists; split; [reflexivity|]. unfold Inv13; unf_set. exact Hnz.
+  - eexists; eexists; split; [reflexivity|exact H].
 Qed.
 
-Theorem run_no_panic c : forall es s, Inv13 s -> run c s es <> None.
+Theorem run_no_panic : forall es c s, Inv13 s -> run c s es <> None.
 Proof.
-  induction es as [|e es IH]; intros s H; cbn [run]; [discriminate|].
+  induction es as [|e es IH]; intros c s H; cbn [run]; [discriminate|].
   destruct (step_no_panic c s e H) as (s1 & o & E & H1). rewrite E.
-  specialize (IH s1 H1). destruct (run c s1 es) as [[s2 os]|]; [discriminate|contradiction].
+  specialize (IH (next_cfg c e) s1 H1). destruct (run (next_cfg c e) s1 es) as [[s2 os]|]; [discriminate|contradiction].
 Qed.
 
 Lemma init_state_inv13 c now nts inv known0 : Inv13 (init_state c now nts inv known0).
@@ -527,7 +537,7 @@ Proof.
   assert (forall s2, last_ts s2 = last_ts s -> inv_ts s2 = inv_ts s -> node_ts s2 = node_ts s ->
                      own_rows_ok c H (gossip s2) -> Inv29 c (H ++ []) s2) as Keep.
   { intros s2 E1 E2 E3 E4. rewrite app_nil_r. unfold Inv29. rewrite E1, E2, E3. auto. }
-  destruct e as [p|p|p a|p sub since until|dt|rid|rid|tnow]; cbn [step].
+  destruct e as [p|p|p a|p sub since until|dt|rid|rid|tnow| |srid sd]; cbn [step].
   - (* connect *)
     intros E; inversion E; subst; clear E. unfold step29_result. cbn [draws flat_map app].
     split; [left; split; reflexivity|]. split; [apply Keep; unf_set; auto|].
@@ -646,11 +656,20 @@ Proof.
       split; [right; exists (last_ts s'); repeat split; auto|]. split; [exact I1|constructor].
   - intros E; inversion E; subst; clear E. unfold step29_result. cbn.
     split; [left; split; reflexivity|]. split; [apply Keep; unf_set; auto|constructor].
+  - destruct (draw _) as [s1 ts] eqn:Ed. apply draw_spec in Ed.
+    destruct Ed as (Hlt & Hnz & Hl & Hc & Hn & Hi & Hr & Hg & _). unf_set.
+    pose proof (Inv29_extend c H s s1 ts HI Hlt Hl Hi Hn Hg) as (J1 & J2 & J3 & J4).
+    intros E; inversion E; subst; clear E. unfold step29_result. cbn [draws flat_map app own_ts].
+    split; [right; exists (last_ts s1); repeat split; auto|]. split; [|constructor].
+    unfold Inv29; unf_set. split; [exact J1|]. split; [apply in_or_app; right; left; reflexivity|].
+    split; [exact J3|exact J4].
+  - intros E; inversion E; subst; clear E. unfold step29_result. cbn.
+    split; [left; split; reflexivity|]. split; [apply Keep; auto|constructor].
 Qed.
 
 Lemma step_sorted c s e s' o : sorted (sessions s) -> step c s e = Ok s' o -> sorted (sessions s').
 Proof.
-  intros Hs. destruct e as [p|p|p a|p sub since until|dt|rid|rid|tnow]; cbn [step].
+  intros Hs. destruct e as [p|p|p a|p sub since until|dt|rid|rid|tnow| |srid sd]; cbn [step].
   - intros E; inversion E; subst; unf_set. unfold insert. apply sorted_upsert. exact Hs.
   - intros E; inversion E; subst; unf_set. apply sorted_remove. exact Hs.
   - destruct (lookup p (sessions s)); [|intros E; inversion E; subst; exact Hs].
@@ -687,24 +706,34 @@ Proof.
     destruct (announced _ _ _); [discriminate| |]; intros E; inversion E; subst; unf_set;
       rewrite Hss; exact Hs.
   - intros E; inversion E; subst; unf_set; exact Hs.
+  - destruct (draw _) as [s1 ts] eqn:Ed. apply draw_spec in Ed.
+    destruct Ed as (_ & _ & _ & _ & _ & _ & _ & _ & _ & Hss & _). unf_set.
+    intros E; inversion E; subst; unf_set. rewrite Hss. exact Hs.
+  - intros E; inversion E; subst; exact Hs.
 Qed.
 
 Fixpoint incr_from (b : N) (l : list N) : Prop :=
   match l with [] => True | t :: l' => b < t /\ incr_from t l' end.
 Definition all_draws (os : list (list out)) : list N := flat_map draws os.
 
-Theorem run_29 c : forall es H s s' os, sorted (sessions s) -> Inv29 c H s ->
+Lemma Inv29_cfg c c' H s : c_me c' = c_me c -> Inv29 c H s -> Inv29 c' H s.
+Proof. unfold Inv29, own_rows_ok. intros E. rewrite E. tauto. Qed.
+Lemma own_ts_cfg c c' o : c_me c' = c_me c -> own_ts c' o = own_ts c o.
+Proof. unfold own_ts. intros E. rewrite E. reflexivity. Qed.
+
+Theorem run_29 : forall es c H s s' os, sorted (sessions s) -> Inv29 c H s ->
   run c s es = Some (s', os) ->
   incr_from (last_ts s) (all_draws os) /\
   Forall (fun t => In t (H ++ all_draws os)) (flat_map (own_ts c) os).
 Proof.
-  induction es as [|e es IH]; intros H s s' os Hs HI; cbn [run].
+  induction es as [|e es IH]; intros c H s s' os Hs HI; cbn [run].
   - intros E; inversion E; subst. cbn. split; [exact I|constructor].
   - destruct (step c s e) as [s1 o|] eqn:Es; [|discriminate].
-    destruct (run c s1 es) as [[s2 os2]|] eqn:Er; [|discriminate].
+    destruct (run (next_cfg c e) s1 es) as [[s2 os2]|] eqn:Er; [|discriminate].
     intros E; inversion E; subst; clear E.
     destruct (step_29 c H s e s1 o Hs HI Es) as (Hd & I1 & Fo).
-    specialize (IH (H ++ draws o) s1 s' os2 (step_sorted c s e s1 o Hs Es) I1 Er).
+    specialize (IH (next_cfg c e) (H ++ draws o) s1 s' os2 (step_sorted c s e s1 o Hs Es)
+                   (Inv29_cfg c _ _ _ (next_cfg_me c e) I1) Er).
     destruct IH as (Hinc & Fown).
     unfold all_draws in *. cbn [flat_map]. split.
     + destruct Hd as [[D L]|(t & D & Hlt & L)]; rewrite D; cbn [app].
@@ -713,7 +742,9 @@ Proof.
     + apply Forall_app. split.
       * eapply Forall_impl; [|exact Fo]. cbn. intros t Ht. rewrite app_assoc.
         apply in_or_app. left. exact Ht.
-      * eapply Forall_impl; [|exact Fown]. cbn. intros t Ht. rewrite app_assoc. exact Ht.
+      * assert (flat_map (own_ts (next_cfg c e)) os2 = flat_map (own_ts c) os2) as Eo.
+        { apply flat_map_ext. intros o'. apply own_ts_cfg, next_cfg_me. }
+        rewrite <- Eo. eapply Forall_impl; [|exact Fown]. cbn. intros t Ht. rewrite app_assoc. exact Ht.
 Qed.
 
 Lemma init_state_inv29 c now nts inv known0 :
@@ -833,7 +864,7 @@ Definition confined (c : config) (p : N) (a : ann) (pth : path) : Prop :=
 Theorem step_refs_confined c s e s' o : step c s e = Ok s' o ->
   forall p a pth, In (OWrite p a pth) o -> confined c p a pth.
 Proof.
-  unfold confined. destruct e as [q|q|q b|q sub since until|dt|rid|rid|tnow]; cbn [step].
+  unfold confined. destruct e as [q|q|q b|q sub since until|dt|rid|rid|tnow| |srid sd]; cbn [step].
   - intros E; inversion E; subst; clear E. intros p a pth [H|[H|[]]] Hk; inversion H; subst; discriminate.
   - intros E; inversion E; subst. intros p a pth [].
   - destruct (lookup q (sessions s)); [|intros E; inversion E; subst; intros p a pth []].
@@ -869,19 +900,29 @@ Proof.
       destruct (announce_inventory_in _ _ _ _ _ _ _ E4 H) as (-> & _). discriminate.
     + intros E; inversion E; subst. intros p a pth [H|[]]. discriminate.
   - intros E; inversion E; subst. intros p a pth [].
+  - destruct (draw _) as [s1 ts]. intros E; inversion E; subst. intros p a pth [H|[]]. discriminate.
+  - intros E; inversion E; subst. intros p a pth [].
 Qed.
 
-(* the same for whole traces *)
-Theorem run_refs_confined c : forall es s s' os, run c s es = Some (s', os) ->
-  forall o p a pth, In o os -> In (OWrite p a pth) o -> confined c p a pth.
+(* the same for whole traces; the configuration (identity documents) may change
+   between events ([ESetDoc]): each step is judged against the documents in
+   force at that step *)
+Fixpoint all_confined (c : config) (s : state) (es : list event) : Prop :=
+  match es with
+  | [] => True
+  | e :: es' =>
+      match step c s e with
+      | Ok s1 o => (forall p a pth, In (OWrite p a pth) o -> confined c p a pth) /\
+                   all_confined (next_cfg c e) s1 es'
+      | Panic _ => True
+      end
+  end.
+
+Theorem run_refs_confined : forall es c s, all_confined c s es.
 Proof.
-  induction es as [|e es IH]; intros s s' os; cbn [run].
-  - intros E; inversion E; subst. intros o p a pth [].
-  - destruct (step c s e) as [s1 o1|] eqn:Es; [|discriminate].
-    destruct (run c s1 es) as [[s2 os2]|] eqn:Er; [|discriminate].
-    intros E; inversion E; subst; clear E. intros o p a pth [<-|Hin] Hw.
-    + eapply step_refs_confined; eassumption.
-    + eapply IH; eassumption.
+  induction es as [|e es IH]; intros c s; cbn [all_confined]; [exact I|].
+  destruct (step c s e) as [s1 o|] eqn:Es; [|exact I].
+  split; [eapply step_refs_confined; exact Es|apply IH].
 Qed.
 
 (* ---- the node's own inventory announcements list public repositories only ---- *)
@@ -949,14 +990,46 @@ Proof.
   unfold InvPub, me_routes in *. unf_set. auto.
 Qed.
 
-Theorem step_inventory_public c s e s' o : sorted (sessions s) ->
+Lemma local_repos_public c rid : sorted (c_storage c) -> In rid (local_repos c true) -> public c rid.
+Proof.
+  intros Hs H. unfold local_repos in H. apply in_map_iff in H. destruct H as ([k d] & <- & H).
+  apply filter_In in H. destruct H as [Hin Hc]. apply andb_true_iff in Hc. destruct Hc as [_ Hp].
+  apply Bool.eqb_prop in Hp. exists d. split; [apply In_lookup; assumption|exact Hp].
+Qed.
+
+Lemma route_inv_remove_subset me rid n rt x :
+  In x (route_inventory me (route_remove rid n rt)) -> In x (route_inventory me rt).
+Proof.
+  unfold route_inventory, route_remove. intros H. apply in_map_iff in H. destruct H as (e & <- & He).
+  apply filter_In in He. destruct He as [He Hm]. apply filter_In in He. destruct He as [He _].
+  apply in_map_iff. exists e. split; [reflexivity|]. apply filter_In. split; assumption.
+Qed.
+
+Lemma route_inv_fold_remove me l : forall rt x,
+  In x (route_inventory me (fold_left (fun t rid => route_remove rid me t) l rt)) ->
+  In x (route_inventory me rt).
+Proof.
+  induction l as [|y l IH]; intros rt x; cbn [fold_left]; [auto|].
+  intros H. apply IH in H. eapply route_inv_remove_subset. exact H.
+Qed.
+
+Lemma route_inv_fold_add me ts l : forall rt x,
+  In x (route_inventory me (fold_left (fun t rid => fst (route_add rid me ts t)) l rt)) ->
+  In x l \/ In x (route_inventory me rt).
+Proof.
+  induction l as [|y l IH]; intros rt x; cbn [fold_left]; [auto|].
+  intros H. apply IH in H. destruct H as [H|H]; [left; right; exact H|].
+  apply route_inventory_add_self in H. destruct H as [->|H]; [left; left; reflexivity|right; exact H].
+Qed.
+
+Theorem step_inventory_public c s e s' o : sorted (c_storage c) -> sorted (sessions s) ->
   InvPub c s -> cmd_ok c e -> step c s e = Ok s' o ->
   InvPub c s' /\ forall p a pth, In (OWrite p a pth) o -> own_inv_public c a.
 Proof.
-  intros Hsorted HP Hcmd. pose proof HP as (P1 & P2 & P3).
+  intros Hcs Hsorted HP Hcmd. pose proof HP as (P1 & P2 & P3).
   assert (own_inv_public c (own_inv_ann c s)) as Hown.
   { intros _ _ rid Hr. cbn in Hr. apply P2. exact Hr. }
-  destruct e as [q|q|q b|q sub since until|dt|rid|rid|tnow]; cbn [step].
+  destruct e as [q|q|q b|q sub since until|dt|rid|rid|tnow| |srid sd]; cbn [step].
   - intros E; inversion E; subst; clear E. split; [unfold InvPub, me_routes; unf_set; auto|].
     intros p a pth [H|[H|[]]]; inversion H; subst; [|exact Hown].
     intros _ Hk. discriminate.
@@ -1043,20 +1116,39 @@ Proof.
       intros _ _ x Hx. cbn in Hx. destruct HP3 as (_ & Q2 & _). apply Q2. exact Hx.
     + intros E; inversion E; subst. split; [exact HP1|]. intros p a pth [H|[]]. discriminate.
   - intros E; inversion E; subst. split; [unfold InvPub, me_routes; unf_set; auto|intros p a pth []].
+  - destruct (draw _) as [s1 ts] eqn:Ed. apply draw_spec in Ed.
+    destruct Ed as (_ & _ & _ & _ & _ & _ & Hr & Hg & Hrt & _). unf_set.
+    intros E; inversion E; subst; clear E. split; [|intros p a pth [H|[]]; discriminate].
+    unfold InvPub, me_routes; unf_set. split; [|split].
+    + intros x Hx. apply route_inv_fold_remove in Hx. rewrite Hrt in Hx.
+      apply route_inv_fold_add in Hx. destruct Hx as [Hx|Hx]; [apply local_repos_public; assumption|apply P1; exact Hx].
+    + intros x Hx. apply local_repos_public; assumption.
+    + rewrite Hg. exact P3.
+  - intros E; inversion E; subst. split; [exact HP|intros p a pth []].
 Qed.
 
-Theorem run_inventory_public c : forall es s s' os, sorted (sessions s) -> InvPub c s ->
-  Forall (cmd_ok c) es -> run c s es = Some (s', os) ->
+(* static identity documents: no ESetDoc in the trace *)
+Theorem run_inventory_public c : sorted (c_storage c) -> forall es s s' os, sorted (sessions s) -> InvPub c s ->
+  Forall (fun e => cmd_ok c e /\ no_setdoc e) es -> run c s es = Some (s', os) ->
   forall o p a pth, In o os -> In (OWrite p a pth) o -> own_inv_public c a.
 Proof.
-  induction es as [|e es IH]; intros s s' os Hs HP Hc; cbn [run].
+  intros Hcs. induction es as [|e es IH]; intros s s' os Hs HP Hc; cbn [run].
   - intros E; inversion E; subst. intros o p a pth [].
-  - destruct (step c s e) as [s1 o1|] eqn:Es; [|discriminate].
+  - inversion Hc as [|e0 es0 [H1 Hns] H2]; subst. rewrite (next_cfg_static c e Hns).
+    destruct (step c s e) as [s1 o1|] eqn:Es; [|discriminate].
     destruct (run c s1 es) as [[s2 os2]|] eqn:Er; [|discriminate].
-    intros E; inversion E; subst; clear E. inversion Hc; subst.
-    destruct (step_inventory_public c s e s1 o1 Hs HP H1 Es) as (HP1 & Ho).
+    intros E; inversion E; subst; clear E.
+    destruct (step_inventory_public c s e s1 o1 Hcs Hs HP H1 Es) as (HP1 & Ho).
     intros o p a pth [<-|Hin] Hw; [eapply Ho; exact Hw|].
     eapply (IH s1 s' os2 (step_sorted c s e s1 o1 Hs Es) HP1 H2 Er); eassumption.
+Qed.
+
+(* a restart re-establishes the inventory from the documents in force, whatever happened before *)
+Theorem restart_inventory_public c s s' o : sorted (c_storage c) ->
+  step c s ERestart = Ok s' o -> forall rid, In rid (inv_rids s') -> public c rid.
+Proof.
+  intros Hcs. cbn [step]. destruct (draw _) as [s1 ts]. intros E; inversion E; subst; clear E.
+  unf_set. intros rid H. apply local_repos_public; assumption.
 Qed.
 
 Lemma init_state_invpub c now nts inv known0 :
@@ -1366,7 +1458,7 @@ Qed.
 Theorem step_10 c s e s' o : Inv10 c s -> step c s e = Ok s' o -> Inv10 c s' /\ out_ok10 c s' o.
 Proof.
   intros HI. pose proof HI as (I1 & I2 & I3 & I4 & I5 & I6).
-  destruct e as [q|q|q b|q sub since until|dt|rid|rid|tnow]; cbn [step].
+  destruct e as [q|q|q b|q sub since until|dt|rid|rid|tnow| |srid sd]; cbn [step].
   - intros E; inversion E; subst; clear E. split.
     + eapply Inv10_frame with (s := s); [reflexivity|reflexivity|reflexivity| |unf_set; lia|exact HI].
       unf_set. unfold insert. apply sorted_upsert. exact I4.
@@ -1494,6 +1586,11 @@ Proof.
   - intros E; inversion E; subst; clear E. split; [|apply out_ok10_nil].
     eapply Inv10_frame with (s := s); [reflexivity|reflexivity|reflexivity|exact I4| |exact HI].
     unf_set. destruct (N.leb_spec (clock s) tnow); lia.
+  - destruct (draw _) as [s1 ts] eqn:Ed. apply draw_spec in Ed.
+    destruct Ed as (_ & _ & _ & Hc & _ & _ & _ & Hg & _ & Hss & Hrb & Hdl & _). unf_set.
+    intros E; inversion E; subst; clear E. split; [|intros p a pth [H|[]]; discriminate].
+    eapply Inv10_frame with (s := s); [exact Hg|exact Hrb|exact Hdl|unf_set; rewrite Hss; exact I4|unf_set; lia|exact HI].
+  - intros E; inversion E; subst; clear E. split; [exact HI|apply out_ok10_nil].
 Qed.
 
 (* every step of every trace: no panic, and the outputs are fine with respect
@@ -1503,16 +1600,20 @@ Fixpoint all_steps_ok (c : config) (s : state) (es : list event) : Prop :=
   | [] => True
   | e :: es' =>
       match step c s e with
-      | Ok s1 o => out_ok10 c s1 o /\ all_steps_ok c s1 es'
+      | Ok s1 o => out_ok10 c s1 o /\ all_steps_ok (next_cfg c e) s1 es'
       | Panic _ => False
       end
   end.
 
-Theorem run_10 c : forall es s, Inv10 c s -> Inv13 s -> all_steps_ok c s es.
+Lemma Inv10_cfg c c' s : c_me c' = c_me c -> Inv10 c s -> Inv10 c' s.
+Proof. unfold Inv10, InvStore. intros E. rewrite E. tauto. Qed.
+
+Theorem run_10 : forall es c s, Inv10 c s -> Inv13 s -> all_steps_ok c s es.
 Proof.
-  induction es as [|e es IH]; intros s HI H13; cbn [all_steps_ok]; [exact I|].
+  induction es as [|e es IH]; intros c s HI H13; cbn [all_steps_ok]; [exact I|].
   destruct (step_no_panic c s e H13) as (s1 & o & E & H13'). rewrite E.
-  destruct (step_10 c s e s1 o HI E) as (HI1 & Ho). split; [exact Ho|]. apply IH; assumption.
+  destruct (step_10 c s e s1 o HI E) as (HI1 & Ho). split; [exact Ho|].
+  apply IH; [|assumption]. eapply Inv10_cfg; [apply next_cfg_me|exact HI1].
 Qed.
 
 Lemma init_state_inv10 c now nts inv known0 : Inv10 c (init_state c now nts inv known0).
